@@ -82,6 +82,9 @@ def specCentringNat (n : Nat) : List Vec :=
 
 def specCentring (N : Int) : List Vec := specCentringNat N.natAbs
 
+/-- the SHELXL manual: `LATT N[1]` — an omitted number means N = 1 (primitive and centrosymmetric) -/
+def lattOf (n : Option Int) : Int := n.getD 1
+
 /-- number of lattice points per cell -/
 def mult (N : Int) : Nat := 1 + (specCentring N).length
 
